@@ -158,6 +158,70 @@ func C13(r *h.Run) {
 		r.Case("pool_trace", fmt.Sprintf("PoolTrace %s %d %d", h.CoqList(sc.sks), tr.gets, tr.puts),
 			map[string]any{"scenario": sc.name, "messages": sc.nmsgs, "impl_gets": tr.gets, "impl_puts": tr.puts, "skeletons": sc.sks})
 	}
+	// the same for streams that END BADLY (the paths that leave envelopeReader / the unmarshalers
+	// early): no model case, the ownership discipline only — a buffer put back twice sits in the
+	// pool twice and is later handed to two overlapping calls
+	for _, proto := range []string{"connect", "grpc", "grpcweb"} {
+		for _, algo := range []string{"", "tagA"} {
+			bads := map[string][]byte{
+				"compressed flag, no encoding negotiated": h.Frame(1, []byte{9, 9, 9}),
+				"compressed flag, empty payload":          h.Frame(1, nil),
+				"undecodable payload":                     h.Frame(0, []byte{0xFF, 1, 2}),
+				"message beyond the read limit":           h.Frame(0, bytes.Repeat([]byte{3}, 80)),
+				"payload shorter than declared":           h.FrameLie(0, 9, []byte{1, 2}),
+				"prefix cut":                              {0, 0, 0},
+				"garbage under the compressed flag":       h.Frame(1, []byte{0x42, 1, 2, 3}),
+				"end-of-stream flags in a request":        h.Frame(0x82, []byte("{}")),
+			}
+			for what, bad := range bads {
+				for _, kind := range []string{"client", "unary"} {
+					cfg := envCfg{Proto: proto, Algo: algo, Max: 64}
+					hopts := append(cfg.handlerOpts(), connect.WithCompressMinBytes(0))
+					var handler *connect.Handler
+					if kind == "unary" {
+						handler = connect.NewUnaryHandler("/verif.Svc/M", func(_ context.Context, req *connect.Request[h.Raw]) (*connect.Response[h.Raw], error) {
+							return connect.NewResponse(&h.Raw{B: []byte("response")}), nil
+						}, hopts...)
+					} else {
+						handler = connect.NewClientStreamHandler("/verif.Svc/M", func(_ context.Context, s *connect.ClientStream[h.Raw]) (*connect.Response[h.Raw], error) {
+							for s.Receive() {
+							}
+							if err := s.Err(); err != nil {
+								return nil, err
+							}
+							return connect.NewResponse(&h.Raw{B: []byte("response")}), nil
+						}, hopts...)
+					}
+					body := bad
+					if kind == "client" {
+						body = append(h.Frame(0, []byte{1, 2, 3}), bad...)
+					} else if proto == "connect" {
+						body = bad[min(5, len(bad)):] // unary Connect has no envelopes: the payload alone
+					}
+					req := httptest.NewRequest(http.MethodPost, "/verif.Svc/M", bytes.NewReader(body))
+					req.Header.Set("Content-Type", cfg.contentType(kind == "unary"))
+					if algo != "" {
+						req.Header.Set(cfg.encodingHeader(kind == "unary"), algo)
+					}
+					tr := &poolTrace{state: map[*bytes.Buffer]int{}}
+					connect.VerifSetPoolHooks(tr.hooks(false))
+					rec := httptest.NewRecorder()
+					p := safely(func() { handler.ServeHTTP(rec, req) })
+					connect.VerifSetPoolHooks(nil)
+					in := map[string]any{"proto": proto, "kind": kind, "request_encoding": algo, "read_limit": 64, "request": what, "body_hex": h.Hex(body)}
+					r.Eval("pool_trace_bad_stream", fmt.Sprint(proto, algo, what, kind))
+					if p != nil {
+						r.Fail(h.Failure{Key: "pool/panic", Family: "pool_trace_bad_stream", What: fmt.Sprint("panic: ", p), Input: in})
+						continue
+					}
+					r.Sample("pool_trace_bad_stream", map[string]any{"in": in, "gets": tr.gets, "puts": tr.puts})
+					for _, pr := range tr.problems {
+						r.Fail(h.Failure{Key: "pool/ownership", Family: "pool_trace_bad_stream", What: pr, Input: in})
+					}
+				}
+			}
+		}
+	}
 
 	// ---------- (2) concurrency ----------
 	tr := &poolTrace{state: map[*bytes.Buffer]int{}}
